@@ -436,6 +436,147 @@ Definition observe (m : omode) (ps : list param) (slots : assignment) (table : l
       end
   end.
 
+(* ------------------------------------------------------------------------------------ the dask path
+   with_dask=True: <Mode>.create_params(dim_names) builds the array of parameter tuples, and
+   observation_dask.run_pipelines_with_dask runs one pipeline per cell (processor.replace(dict(zip(
+   dim_names, cell)))) and stores its buckets in the cell, whose coordinates are the labels. *)
+
+Fixpoint pvals_nodup (l : list pval) : bool :=
+  match l with [] => true | a :: t => negb (existsb (pval_eqb a) t) && pvals_nodup t end.
+
+(* order of a pandas level: numbers by value, tuples lexicographically *)
+Fixpoint listZ_leb (a b : list Z) : bool :=
+  match a, b with
+  | [], _ => true
+  | _ :: _, [] => false
+  | x :: a', y :: b' => if Z.ltb x y then true else if Z.ltb y x then false else listZ_leb a' b'
+  end.
+Definition pval_leb (a b : pval) : bool :=
+  match a, b with
+  | Sc x, Sc y => Z.leb x y
+  | Vec x, Vec y => listZ_leb x y
+  | Sc _, _ => true
+  | Vec _, Ph => true
+  | Ph, Ph => true
+  | _, _ => false
+  end.
+Fixpoint insert_sorted (x : pval) (l : list pval) : list pval :=
+  match l with
+  | [] => [x]
+  | y :: r => if pval_leb x y then x :: l else y :: insert_sorted x r
+  end.
+(* MultiIndex.levels: pandas keeps every level sorted *)
+Definition sort_level (l : list pval) : list pval := fold_right insert_sorted [] l.
+
+(* all_steps = {step.key: list(step) for step in enabled_steps} *)
+Definition dask_steps (en : list param) : list (string * list pval) :=
+  dict_of (map (fun p => (p_key p, piter p)) en).
+
+(* the coordinates of a cell of the product array: every parameter under its dimension name *)
+Definition dask_product_label (names : list (string * dname)) (params : assignment) : label :=
+  map (fun kv => (name_of names (fst kv), LV (snd kv))) params.
+
+(* ProductMode.create_params, generic in the order `norm` pandas gives each level:
+   Series(list(mi), index=mi).to_xarray() -- the cell with coordinates (l_1[i_1], .., l_n[i_n]) holds
+   exactly that tuple, l_k = norm(values_k) *)
+Definition dask_product_cells (norm : list pval -> list pval) (steps : list (string * list pval))
+  : list assignment :=
+  map (fun vs => combine (map fst steps) vs) (iproduct (map (fun s => norm (snd s)) steps)).
+
+(* SequentialMode.create_params: list(zip( *values )): truncated to the shortest list, every run sets
+   ALL parameters (DESIGN F12) *)
+Fixpoint zipn {A} (ls : list (list A)) : list (list A) :=
+  match ls with
+  | [] => []
+  | [l] => map (fun x => [x]) l
+  | l :: r => map (fun p => fst p :: snd p) (combine l (zipn r))
+  end.
+
+Definition dask_sequential_cells (steps : list (string * list pval)) : list assignment :=
+  map (fun vs => combine (map fst steps) vs) (zipn (map snd steps)).
+
+(* convert_custom_data: `len(params) == 1` -> the single column as a number, else the tuple of the
+   next len(params) columns; columns are addressed by LABEL 0,1,.. (custom_data[idx]) *)
+Fixpoint dask_custom_row (steps : list (string * list pval)) (row : list Z) (i : nat) : assignment :=
+  match steps with
+  | [] => []
+  | (k, vs) :: rest =>
+      (k, if Nat.eqb (length vs) 1 then Sc (nth i row 0%Z) else Vec (firstn (length vs) (skipn i row)))
+      :: dask_custom_row rest row (i + length vs)
+  end.
+
+(* id coordinate + one coordinate per parameter (sequential and custom mode) *)
+Definition dask_id_label (names : list (string * dname)) (index : nat) (params : assignment) : label :=
+  ("id", LI index) :: map (fun kv => (name_of names (fst kv), LV (snd kv))) params.
+
+Definition dask_outcome (slots : assignment) (cells : list (label * assignment)) : option outcome :=
+  option_map (mkOutcome (map (fun c => received slots (snd c)) cells))
+             (assemble (map (fun c => (fst c, data_of slots (snd c))) cells)).
+
+(* the observation as coded, dask path.  None = an exception is raised.  oc_runs lists the cells (the
+   order of execution is dask's business and is not compared). *)
+Definition observe_dask (m : omode) (ps : list param) (slots : assignment) (table : list (list Z))
+           (range : option (nat * nat)) : option outcome :=
+  let en := enabled ps in
+  let keys := unique (map p_key en) in
+  let steps := dask_steps en in
+  match m with
+  | Product =>
+      if existsb has_ph en then None else
+      match dim_names keys with
+      | None => None
+      | Some names =>
+          if str_nodup (map (name_of names) keys ++ reserved_dims)
+             && forallb (fun s => pvals_nodup (snd s)) steps      (* non-unique MultiIndex: ValueError *)
+          then dask_outcome slots (map (fun c => (dask_product_label names c, c))
+                                       (dask_product_cells sort_level steps))
+          else None
+      end
+  | Sequential =>
+      if existsb has_ph en then None else
+      match dim_names keys with
+      | None => None
+      | Some names =>
+          if str_nodup (map (name_of names) keys)                 (* non-unique DataFrame columns *)
+          then dask_outcome slots (map (fun nc => (dask_id_label names (fst nc) (snd nc), snd nc))
+                                       (enumerate_from 0 (dask_sequential_cells steps)))
+          else None
+      end
+  | Custom =>
+      match range with
+      | None => None
+      | Some (lo, hi) =>
+          let rows := map (select_cols lo hi) table in
+          let ncols := length (hd [] rows) in
+          let c := count_ph en in
+          if Nat.eqb c 0 || negb (Nat.eqb c ncols) then None else
+          match dim_names keys with
+          | None => None
+          | Some names =>
+              if str_nodup (map (name_of names) keys)
+                 && Nat.eqb lo 0                                   (* custom_data[0]: KeyError if lo > 0 *)
+                 && Nat.leb (sum_nat (map (fun s => length (snd s)) steps)) ncols   (* the asserts *)
+              then dask_outcome slots (map (fun nr => (dask_id_label names (fst nr)
+                                                          (dask_custom_row steps (snd nr) 0),
+                                                        dask_custom_row steps (snd nr) 0))
+                                           (enumerate_from 0 rows))
+              else None
+          end
+      end
+  end.
+
+(* multiset difference: l minus xs, None if an x is missing *)
+Fixpoint remove_first {A} (eqb : A -> A -> bool) (x : A) (l : list A) : option (list A) :=
+  match l with
+  | [] => None
+  | y :: t => if eqb x y then Some t else option_map (cons y) (remove_first eqb x t)
+  end.
+Fixpoint remove_all {A} (eqb : A -> A -> bool) (xs l : list A) : option (list A) :=
+  match xs with
+  | [] => Some l
+  | x :: t => match remove_first eqb x l with None => None | Some l' => remove_all eqb t l' end
+  end.
+
 (* ------------------------------------------------------------------------------------ the specification
    (right-hand sides of the theorems) as bool functions over what the implementation did *)
 
@@ -472,6 +613,17 @@ Definition spec_label (m : omode) (names : list (string * dname)) (en : list par
   | _ => ("id", LI (hd 0 index)) :: map (fun kv => (name_of names (fst kv), LV (snd kv))) params
   end.
 
+(* dask path: a cell of the product array is labelled by the values themselves (a vector-valued
+   parameter by its tuple); sequential/custom cells by id and every parameter's value *)
+Definition spec_label_dask (m : omode) (names : list (string * dname)) (en : list param)
+           (index : list nat) (params : assignment) : label :=
+  match m with
+  | Product =>
+      map (fun p => (name_of names (p_key p),
+                     LV (match dict_get (p_key p) params with Some v => v | None => Ph end))) en
+  | _ => ("id", LI (hd 0 index)) :: map (fun kv => (name_of names (fst kv), LV (snd kv))) params
+  end.
+
 (* a label must name each coordinate once *)
 Definition label_wf (l : label) : bool := str_nodup (map fst l).
 
@@ -484,6 +636,7 @@ Record observed := mkObserved {
 Record case := mkCase {
   c_mode : omode; c_params : list param; c_slots : assignment;
   c_table : list (list Z); c_range : option (nat * nat);
+  c_dask : bool;                       (* with_dask=True (synchronous scheduler) *)
   c_obs : observed
 }.
 
@@ -495,6 +648,15 @@ Fixpoint list_eqb {A} (eqb : A -> A -> bool) (a b : list A) : bool :=
   end.
 
 Definition runs_eqb := list_eqb (list_eqb pval_eqb).
+
+(* dask path: every requested run is executed (as a multiset); the only other execution allowed is
+   ONE more run of an element of the space (run_pipelines_with_dask runs the first cell once more to
+   learn the shape of the output) *)
+Definition runs_dask_ok (obs expected : list (list pval)) : bool :=
+  match remove_all (list_eqb pval_eqb) expected obs with
+  | None => false
+  | Some rest => Nat.leb (length rest) 1 && forallb (fun r => existsb (list_eqb pval_eqb r) expected) rest
+  end.
 
 Definition case_rows (c : case) : list (list Z) :=
   match c_range c with
@@ -514,12 +676,14 @@ Definition spec_holds (c : case) : bool :=
     negb (o_raised o) &&
     let space := spec_space (c_mode c) en (c_slots c) rows in
     (* exactly the requested runs, in order, each with exactly its values *)
-    runs_eqb (o_runs o) (map (fun s => received (c_slots c) (snd s)) space) &&
+    (if c_dask c then runs_dask_ok (o_runs o) (map (fun s => received (c_slots c) (snd s)) space)
+     else runs_eqb (o_runs o) (map (fun s => received (c_slots c) (snd s)) space)) &&
     (* every requested run is found under its own label and holds its own data; nothing else is stored *)
     match dim_names (unique (map p_key en)) with
     | None => false
     | Some names =>
-        let want := map (fun s => (spec_label (c_mode c) names en (snd (fst s)) (snd s),
+        let want := map (fun s => ((if c_dask c then spec_label_dask else spec_label)
+                                     (c_mode c) names en (snd (fst s)) (snd s),
                                    data_of (c_slots c) (snd s))) space in
         forallb (fun e => label_wf (fst e)) want &&
         forallb (fun e => match lookup (fst e) (o_result o) with
@@ -530,16 +694,17 @@ Definition spec_holds (c : case) : bool :=
 
 (* ------------------------------------------------------------------------------------ case files *)
 
-Definition outcome_agree (m : option outcome) (o : observed) : bool :=
+Definition outcome_agree (dask : bool) (m : option outcome) (o : observed) : bool :=
   match m with
   | None => o_raised o
-  | Some oc => negb (o_raised o) && runs_eqb (o_runs o) (oc_runs oc)
+  | Some oc => negb (o_raised o)
+               && (if dask then runs_dask_ok (o_runs o) (oc_runs oc) else runs_eqb (o_runs o) (oc_runs oc))
                && set_eqb entry_eqb (o_result o) (oc_result oc)
                && Nat.eqb (length (o_result o)) (length (oc_result oc))
   end.
 
 Definition model_of (c : case) : option outcome :=
-  observe (c_mode c) (c_params c) (c_slots c) (c_table c) (c_range c).
+  (if c_dask c then observe_dask else observe) (c_mode c) (c_params c) (c_slots c) (c_table c) (c_range c).
 
 Fixpoint indices_where {A} (f : A -> bool) (l : list A) (i : Z) : list Z :=
   match l with
@@ -548,6 +713,6 @@ Fixpoint indices_where {A} (f : A -> bool) (l : list A) (i : Z) : list Z :=
   end.
 
 Definition mismatches (cs : list case) : list Z :=
-  indices_where (fun c => negb (outcome_agree (model_of c) (c_obs c))) cs 0%Z.
+  indices_where (fun c => negb (outcome_agree (c_dask c) (model_of c) (c_obs c))) cs 0%Z.
 Definition violations (cs : list case) : list Z :=
   indices_where (fun c => negb (spec_holds c)) cs 0%Z.
